@@ -505,8 +505,39 @@ class Gen:
                         ('trans', ('identity',), eq), ('trans', ('filter', ('const', True)), eq)])
         return model, m
 
+    def trans_then_infix(self, t, depth):
+        """`-transformed-by T M1 && M2` / `... || M2` WITHOUT parentheses: by the manual the operand of -transformed-by is
+        M1 only, M2 is applied to the ORIGINAL text.  M2 has different verdicts on the original and on the transformed
+        text, and M1 does not decide the outcome alone - so the verdict tells which text M2 was applied to."""
+        rng = self.rng
+        for _ in range(6):
+            T = self.trans(t, max(depth - 1, 0), simple_only=rng.chance(0.6))
+            t2 = self.ref.t(T, t)
+            if t2 == t:
+                continue
+            n, n2 = len(lines_lf(t)), len(lines_lf(t2))
+            m2 = [('equals', self.source(t, 0)), ('not', ('equals', self.source(t, 0))), ('equals', self.source(t2, 0))]
+            if n != n2:
+                m2 += [('numlines', ('cmp', 0, n)), ('numlines', ('cmp', 1, n))]
+            if (t == '') != (t2 == ''):
+                m2 += [('empty',), ('not', ('empty',))]
+            op = rng.choice(['and', 'or'])
+            holds = op == 'and'  # M1 on the transformed text: true for &&, false for ||
+            m1 = rng.choice([('equals', self.source(t2, 0)), ('numlines', ('cmp', 0, n2)), ('const', True)])
+            if not holds:
+                m1 = ('not', m1)
+            ops = [('trans', T, m1), rng.choice(m2)]
+            if rng.chance(0.3):
+                ops.insert(0, ('const', holds))
+            if rng.chance(0.25):
+                ops.append(('const', holds))
+            return (op, ops)
+        return ('and', [('trans', ('identity',), ('const', True)), ('not', ('empty',))])
+
     def smatcher(self, t, depth):
         rng = self.rng
+        if rng.chance(0.05):
+            return self.trans_then_infix(t, depth)
         r = rng.below(100)
         if t == '' and rng.chance(0.6):
             # an empty (possibly: emptied by a transformer) text: what line-wise consumers see matters
@@ -938,10 +969,260 @@ def skel_match(got, exp):
     return got == exp
 
 
-def read_back(primitive, expected, src):
-    got = skel_of_node(primitive.structure().render())
+class RefParser:
+    """An independent parser of the RENDERED expressions, written from the reference manual (help syntax TEXT-MATCHER,
+    TEXT-TRANSFORMER, LINE-MATCHER, INTEGER-MATCHER, TEXT-SOURCE): precedence ! > && > ||; the operands of `!`, `every/any
+    line :`, `contents`, `num-lines`, `line-num`, `-transformed-by T M`, `filter`, `replace -at`, and the transformer of a
+    TEXT-SOURCE "may not contain infix operators (unless inside parentheses)"; TEXT-SOURCE = STRING | -contents-of PATH,
+    each with an optional `-transformed-by T` of its own, or the same in parentheses; a `-line-nums` RANGE list extends
+    to the end of the line.  It yields the skeleton (as `Skel`) the manual gives the string.  Used to tell a defect of the
+    renderer (harness error) from the program giving an expression another structure than the manual."""
+
+    def __init__(self, src):
+        self.toks = self._tokens(src)
+        self.i = 0
+
+    @staticmethod
+    def _tokens(src):
+        out, i, n = [], 0, len(src)
+        while i < n:
+            c = src[i]
+            if c == '\n':
+                out.append(('nl', None))
+                i += 1
+            elif c.isspace():
+                i += 1
+            elif c == "'":
+                j = src.index("'", i + 1)
+                out.append(('str', src[i + 1:j]))
+                i = j + 1
+            else:
+                j = i
+                while j < n and not src[j].isspace():
+                    j += 1
+                out.append(('w', src[i:j]))
+                i = j
+        return out
+
+    def peek(self):
+        while self.i < len(self.toks) and self.toks[self.i][0] == 'nl':
+            self.i += 1
+        return self.toks[self.i] if self.i < len(self.toks) else ('end', None)
+
+    def next(self):
+        t = self.peek()
+        self.i += 1
+        return t
+
+    def is_w(self, *words):
+        t = self.peek()
+        return t[0] == 'w' and t[1] in words
+
+    def expect(self, word):
+        t = self.next()
+        if t != ('w', word):
+            raise HarnessRenderingError('reference parser: expected %r, found %r' % (word, t))
+
+    def at_end(self):
+        return self.peek()[0] == 'end'
+
+    def infix(self, simple):
+        """|| of && of simple operands; a run of the same operator is one n-ary node"""
+        ors = []
+        while True:
+            ands = [simple()]
+            while self.is_w('&&'):
+                self.next()
+                ands.append(simple())
+            ors.append(ands[0] if len(ands) == 1 else ['&&'] + ands)
+            if not self.is_w('||'):
+                break
+            self.next()
+        return ors[0] if len(ors) == 1 else ['||'] + ors
+
+    def grouped(self, full):
+        self.expect('(')
+        x = full()
+        self.expect(')')
+        return x
+
+    def const(self):
+        self.expect('constant')
+        return ['constant', 'opt:' + self.next()[1]]
+
+    def regex(self):
+        ic = self.is_w('-ignore-case')
+        if ic:
+            self.next()
+        t = self.next()
+        if t[0] != 'str':
+            raise HarnessRenderingError('reference parser: a quoted REGEX expected, found %r' % (t,))
+        return ['hv:Case insensitive'] if ic else None
+
+    # ---- TEXT-MATCHER
+    def m_full(self):
+        return self.infix(self.m_simple)
+
+    def m_simple(self):
+        if self.is_w('('):
+            return self.grouped(self.m_full)
+        if self.is_w('!'):
+            self.next()
+            return ['!', self.m_simple()]
+        if self.is_w('constant'):
+            return self.const()
+        t = self.next()
+        w = t[1] if t[0] == 'w' else None
+        if w == 'is-empty':
+            return ['is-empty']
+        if w in ('equals', '=='):
+            return ['equals TEXT-SOURCE', self.source()]
+        if w in ('matches', '~'):
+            full = self.is_w('-full')
+            if full:
+                self.next()
+            r = self.regex()
+            return ['matches REGEX', ['hv:Full match' if full else 'hv:Contains'] + ([r] if r else [])]
+        if w == 'num-lines':
+            return ['num-lines INTEGER-MATCHER', self.im_simple()]
+        if w in ('every', 'any'):
+            self.expect('line')
+            self.expect(':')
+            return [w + ' line : LINE-MATCHER', self.lm_simple()]
+        if w == '-transformed-by':
+            T = self.t_simple()
+            return ['-transformed-by TEXT-TRANSFORMER', T, self.m_simple()]
+        raise HarnessRenderingError('reference parser: not a TEXT-MATCHER: %r' % (t,))
+
+    def source(self):
+        if self.is_w('('):
+            return self.grouped(self.source1)
+        return self.source1()
+
+    def source1(self):
+        t = self.next()
+        if t[0] == 'str':
+            base = ['STRING']
+        elif t == ('w', '-contents-of'):
+            if self.is_w('-rel-act', '-rel-home'):
+                self.next()
+            self.next()
+            base = ['PATH']
+        else:
+            raise HarnessRenderingError('reference parser: not a TEXT-SOURCE: %r' % (t,))
+        if self.is_w('-transformed-by'):
+            self.next()
+            base = base + [['-transformed-by', self.t_simple()]]
+        return base
+
+    # ---- INTEGER-MATCHER
+    def im_full(self):
+        return self.infix(self.im_simple)
+
+    def im_simple(self):
+        if self.is_w('('):
+            return self.grouped(self.im_full)
+        if self.is_w('!'):
+            self.next()
+            return ['!', self.im_simple()]
+        if self.is_w('constant'):
+            return self.const()
+        t = self.next()
+        if t[0] == 'w' and t[1] in ('==', '!=', '<', '<=', '>', '>='):
+            self.next()
+            return [t[1] + ' INTEGER', ['hv:RHS']]
+        raise HarnessRenderingError('reference parser: not an INTEGER-MATCHER: %r' % (t,))
+
+    # ---- LINE-MATCHER
+    def lm_full(self):
+        return self.infix(self.lm_simple)
+
+    def lm_simple(self):
+        if self.is_w('('):
+            return self.grouped(self.lm_full)
+        if self.is_w('!'):
+            self.next()
+            return ['!', self.lm_simple()]
+        if self.is_w('constant'):
+            return self.const()
+        t = self.next()
+        if t == ('w', 'contents'):
+            return ['contents TEXT-MATCHER', self.m_simple()]
+        if t == ('w', 'line-num'):
+            return ['line-num INTEGER-MATCHER', self.im_simple()]
+        raise HarnessRenderingError('reference parser: not a LINE-MATCHER: %r' % (t,))
+
+    # ---- TEXT-TRANSFORMER
+    def t_full(self):
+        ops = [self.t_simple()]
+        while self.is_w('|'):
+            self.next()
+            ops.append(self.t_simple())
+        return ops[0] if len(ops) == 1 else ['|'] + ops
+
+    def t_simple(self):
+        if self.is_w('('):
+            return self.grouped(self.t_full)
+        t = self.next()
+        w = t[1] if t[0] == 'w' else None
+        if w == 'identity':
+            return ['identity']
+        if w == 'strip':
+            if self.is_w('-trailing-space', '-trailing-new-lines'):
+                return ['strip', 'opt:' + self.next()[1]]
+            return ['strip']
+        if w == 'char-case':
+            return ['char-case', 'opt:' + self.next()[1]]
+        if w == 'grep':
+            full = self.is_w('-full')
+            if full:
+                self.next()
+            r = self.regex()
+            return ['filter LINE-MATCHER', ['contents TEXT-MATCHER',
+                                            ['matches REGEX', ['hv:Full match' if full else 'hv:Contains'] + ([r] if r else [])]]]
+        if w == 'filter':
+            if self.is_w('-line-nums'):
+                self.next()
+                while self.i < len(self.toks) and self.toks[self.i][0] != 'nl':  # the RANGE list: to the end of the line
+                    self.i += 1
+                return ['filter -line-nums LINE-NUMBER-RANGE...']
+            return ['filter LINE-MATCHER', self.lm_simple()]
+        if w == 'replace':
+            out = ['replace']
+            if self.is_w('-at'):
+                self.next()
+                out.append(['hv:-at LINE-MATCHER', self.lm_simple()])
+            if self.is_w('-preserve-new-lines'):
+                self.next()
+                out.append('opt:-preserve-new-lines')
+            r = self.regex()
+            out.append(['hv:pattern REGEX'] + ([r] if r else []))
+            if self.next()[0] != 'str':
+                raise HarnessRenderingError('reference parser: a quoted replacement STRING expected')
+            out.append(['hv:replacement STRING'])
+            return out
+        raise HarnessRenderingError('reference parser: not a TEXT-TRANSFORMER: %r' % (t,))
+
+
+def documented_structure(src, is_transformer, expected):
+    """the rendered string must denote the intended tree by the documented grammar - else the RENDERER is wrong"""
+    rp = RefParser(src)
+    try:
+        got = rp.t_full() if is_transformer else rp.m_full()
+        if not rp.at_end():
+            raise HarnessRenderingError('reference parser: trailing input %r' % (rp.peek(),))
+    except (IndexError, ValueError) as ex:
+        raise HarnessRenderingError('reference parser failed on %r: %s' % (src, ex))
     if not skel_match(got, expected):
-        raise HarnessRenderingError('the real parser read %r as %s, the harness meant %s' % (src, got, expected))
+        raise HarnessRenderingError('by the documented grammar %r denotes %s, the harness meant %s' % (src, got, expected))
+
+
+def read_back(primitive, expected, src, is_transformer):
+    """-> None if the program gave the expression the documented structure, else the structure it gave it.  (A rendering
+    that does not denote the intended tree by the documented grammar raises HarnessRenderingError.)"""
+    documented_structure(src, is_transformer, expected)
+    got = skel_of_node(primitive.structure().render())
+    return None if skel_match(got, expected) else {'program_structure': got, 'documented_structure': expected}
 
 
 # ---------------------------------------------------------------------------------------------
@@ -1081,6 +1362,7 @@ class Impl:
             self.envs[mem] = impl.app_env(str(d), mem)
         self.n = 0
         self.n_model = 0
+        self.structure_differs = None
         self.TestCaseDs, self.HomeDs, self.sdsm = TestCaseDs, HomeDs, sdsm
         self.sroot = self.tmp / 'sb'
         self.sroot.mkdir()
@@ -1116,8 +1398,7 @@ class Impl:
         home = self.new_home(files)
         tcds = self.TestCaseDs(self.HomeDs(home, home), self.sds)
         tr = self.primitive(self.pst, T_src, env, tcds)
-        if expr is not None:
-            read_back(tr, Skel().t(expr), T_src)
+        self.structure_differs = read_back(tr, Skel().t(expr), T_src, True) if expr is not None else None
         try:
             for b in before:  # the same primitive applied to other texts first: a transformer is a function of its input only
                 with tr.transform(self.base_source(b, home, env)).contents().as_lines as lines:
@@ -1144,9 +1425,8 @@ class Impl:
         tcds = self.TestCaseDs(self.HomeDs(home, home), self.sds)
         try:
             if is_transformer:
-                read_back(self.primitive(self.pst, src, env, tcds), Skel().t(expr), src)
-            else:
-                read_back(self.primitive(self.psm, src, env, tcds), Skel().m(expr), src)
+                return read_back(self.primitive(self.pst, src, env, tcds), Skel().t(expr), src, True)
+            return read_back(self.primitive(self.psm, src, env, tcds), Skel().m(expr), src, False)
         finally:
             shutil.rmtree(home, ignore_errors=True)
 
@@ -1155,8 +1435,7 @@ class Impl:
         home = self.new_home(files)
         tcds = self.TestCaseDs(self.HomeDs(home, home), self.sds)
         mt = self.primitive(self.psm, m_src, env, tcds)
-        if expr is not None:
-            read_back(mt, Skel().m(expr), m_src)
+        self.structure_differs = read_back(mt, Skel().m(expr), m_src, False) if expr is not None else None
         try:
             for b in before:
                 mt.matches_w_trace(self.base_source(b, home, env))
@@ -1229,9 +1508,9 @@ class Program:
         if im is not None:
             if via == 'contents-of-copied-files-instruction':  # same tree; the API read-back resolves the files in the home dir
                 rnd2 = Render()
-                im.read_back_only(False, rnd2.m(case['expr'], top=True), dict(rnd2.files), case['expr'])
+                case['structure_differs'] = im.read_back_only(False, rnd2.m(case['expr'], top=True), dict(rnd2.files), case['expr'])
             else:
-                im.read_back_only(via == 'file-instruction', src, dict(rnd.files), case['expr'])
+                case['structure_differs'] = im.read_back_only(via == 'file-instruction', src, dict(rnd.files), case['expr'])
         keep = via == 'file-instruction'
         r = impl.run_main(self.mps[case['mem']], (['--keep'] if keep else []) + [str(home / 't.case')], str(home), str(self.scratch))
         if r.exception is not None:
@@ -1364,12 +1643,21 @@ def observe(im, case):
     if case['kind'] == 'T':
         src = rnd.t(case['expr'], top=True)
         case['src'], case['files'] = src, rnd.files
-        ls, ext, fext = im.run_t(src, rnd.files, case['model'], case['mem'], case['expr'], case.get('before', ()))
+        im.structure_differs = None
+        try:
+            ls, ext, fext = im.run_t(src, rnd.files, case['model'], case['mem'], case['expr'], case.get('before', ()))
+        finally:
+            case['structure_differs'] = im.structure_differs
         case['obs'] = {'lines': ls, 'ext': ext, 'fext': fext}
     else:
         src = rnd.m(case['expr'], top=True)
         case['src'], case['files'] = src, rnd.files
-        case['obs'] = {'verdict': im.run_m(src, rnd.files, case['model'], case['mem'], case['expr'], case.get('before', ()))}
+        im.structure_differs = None
+        try:
+            v = im.run_m(src, rnd.files, case['model'], case['mem'], case['expr'], case.get('before', ()))
+        finally:
+            case['structure_differs'] = im.structure_differs
+        case['obs'] = {'verdict': v}
 
 
 def reference(ref, case):
@@ -1457,6 +1745,7 @@ def case_json(case):
             'source_kind': {'file': 'existing file', 'str': 'constant string', 'files': 'the files of a directory'}[case['model'][0]],
             'text': case['model'][1], 'quant': case.get('quant'),
             'same_primitive_applied_before_to': [list(b) for b in case.get('before', [])],
+            'structure_given_by_the_program_differs_from_the_documented_one': case.get('structure_differs'),
             'mem_buff_size': case['mem'], 'implementation_observed': case.get('obs'),
             'reference_semantics_says': case.get('ref'), 'expr': sym(case['expr']), 'model': list(case['model']), 'mem': case['mem']}
 
@@ -1478,7 +1767,17 @@ def evaluate(cases, res, tag='cases'):
     for i in pb:
         c = cases[i]
         res.prop_failures.append(Failure('property', case_json(c),
-                                         'the implementation\'s result differs from the documented meaning (Spec/C05.v sem_m / sem_t)'))
+                                         'the implementation\'s result differs from the documented meaning (Spec/C05.v sem_m / sem_t)'
+                                         + ('; the program gives the expression another structure than the reference manual '
+                                            '(precedence / extent of operands): see the two structures in the case'
+                                            if c.get('structure_differs') else '')))
+    pbs = set(pb)
+    for i, c in enumerate(cases):
+        if c.get('structure_differs') and i not in pbs:
+            # another structure but the documented result on this text: not shown to be a violation, not shown to be
+            # harmless (it may be a change of the description trees only): fail-closed
+            res.errors.append('the program gives %r another structure than the documented one, with the documented result on '
+                              'this input: %s' % (c.get('src'), json.dumps(c['structure_differs'])[:600]))
     for i in cb:
         c = cases[i]
         res.disagreements.append(Failure('correspondence', case_json(c),
